@@ -331,3 +331,140 @@ Proof.
     destruct (cur (skip_while is_cspace (snd (digits_acc 0 s2))) =? 0); reflexivity. }
   destruct (cur s1 =? 45); [apply G|]. destruct (cur s1 =? 43); apply G.
 Qed.
+
+(* ---- the repaired code (unsigned accumulation): for EVERY string, with no overflow precondition, the
+   result is the unbounded value wrapped to 32 bits; in particular it is the value itself when that fits int *)
+Lemma U32_pos : 0 < U32. Proof. reflexivity. Qed.
+
+Lemma wrap32_fits : forall v, fits_int v = true -> wrap32 v = v.
+Proof.
+  intros v H. unfold fits_int, INT_MIN, INT_MAX in H. unfold wrap32, to_int32, U32.
+  apply andb_prop in H. destruct H as [H1 H2]. apply Z.leb_le in H1. apply Z.leb_le in H2.
+  pose proof (Z.div_mod v 4294967296 ltac:(lia)) as D.
+  pose proof (Z.mod_pos_bound v 4294967296 ltac:(lia)) as B.
+  set (q := v / 4294967296) in *. set (r := v mod 4294967296) in *. clearbody q r.
+  destruct (Z.ltb_spec r 2147483648); lia.
+Qed.
+
+Lemma wrap32_range : forall v, fits_int (wrap32 v) = true.
+Proof.
+  intros v. unfold wrap32, to_int32, fits_int, INT_MIN, INT_MAX, U32.
+  pose proof (Z.mod_pos_bound v 4294967296 ltac:(lia)) as B.
+  destruct (Z.ltb_spec (v mod 4294967296) 2147483648); lia.
+Qed.
+
+Lemma wrap32_congr : forall a b, a mod U32 = b mod U32 -> wrap32 a = wrap32 b.
+Proof. intros a b H. unfold wrap32. rewrite H. reflexivity. Qed.
+
+(* negation in unsigned arithmetic: (0u - n) with n already reduced *)
+Lemma neg_mod : forall a, (0 - a mod U32) mod U32 = (- a) mod U32.
+Proof.
+  intros a. replace (0 - a mod U32) with (- (a mod U32)) by ring.
+  pose proof U32_pos.
+  rewrite <- (Z.sub_0_l (a mod U32)), <- (Z.sub_0_l a).
+  rewrite Zminus_mod_idemp_r. reflexivity.
+Qed.
+
+Lemma step_mod : forall a d, ((a mod U32) * 10 + d) mod U32 = (a * 10 + d) mod U32.
+Proof.
+  intros a d. pose proof U32_pos.
+  rewrite Z.add_mod by lia. rewrite Z.mul_mod_idemp_l by lia. rewrite <- Z.add_mod by lia. reflexivity.
+Qed.
+
+(* simple_atoi / no_sign_atoi *)
+Lemma neg_digits_pos : forall s a,
+  neg_digits (- a) s = (- fst (pos_digits_acc a s), snd (pos_digits_acc a s)).
+Proof.
+  induction s as [|c t IH]; intros a; cbn [neg_digits pos_digits_acc].
+  - reflexivity.
+  - destruct (g_is_digit c); [|reflexivity].
+    replace (- a * 10 - (c - 48)) with (- (a * 10 + (c - 48))) by ring. apply IH.
+Qed.
+
+Lemma u32_digits_pos : forall s a,
+  u32_digits (a mod U32) s = (fst (pos_digits_acc a s) mod U32, snd (pos_digits_acc a s)).
+Proof.
+  induction s as [|c t IH]; intros a; cbn [u32_digits pos_digits_acc].
+  - reflexivity.
+  - destruct (g_is_digit c); [|reflexivity]. rewrite step_mod. apply IH.
+Qed.
+
+Theorem simple_atoi_u_spec : forall s,
+  simple_atoi_u s = (wrap32 (fst (simple_atoi s)), snd (simple_atoi s)).
+Proof.
+  intros s. unfold simple_atoi_u, simple_atoi.
+  set (s1 := skip_while g_is_space s).
+  assert (G : forall s2,
+    (let '(n, s3) := u32_digits 0 s2 in (to_int32 ((0 - n) mod U32), s3)) =
+      (wrap32 (fst (let '(n, s3) := neg_digits 0 s2 in (1 * n, s3))), snd (let '(n, s3) := neg_digits 0 s2 in (1 * n, s3)))
+    /\ (let '(n, s3) := u32_digits 0 s2 in (to_int32 n, s3)) =
+      (wrap32 (fst (let '(n, s3) := neg_digits 0 s2 in (-1 * n, s3))), snd (let '(n, s3) := neg_digits 0 s2 in (-1 * n, s3)))).
+  { intros s2. pose proof (neg_digits_pos s2 0) as N. pose proof (u32_digits_pos s2 0) as U.
+    change (- 0) with 0 in N. change (0 mod U32) with 0 in U. rewrite N, U. cbn [fst snd].
+    set (p := fst (pos_digits_acc 0 s2)). split.
+    - f_equal. unfold wrap32. f_equal. rewrite neg_mod. f_equal. ring.
+    - f_equal. unfold wrap32. f_equal. f_equal. ring. }
+  destruct (cur s1 =? 45).
+  - exact (proj1 (G (adv s1))).
+  - destruct (cur s1 =? 43); [exact (proj2 (G (adv s1)))|exact (proj2 (G s1))].
+Qed.
+
+Theorem no_sign_atoi_u_spec : forall s,
+  no_sign_atoi_u s = (wrap32 (fst (no_sign_atoi s)), snd (no_sign_atoi s)).
+Proof.
+  intros s. unfold no_sign_atoi_u, no_sign_atoi.
+  pose proof (u32_digits_pos (skip_while g_is_space s) 0) as U. change (0 mod U32) with 0 in U.
+  rewrite U. reflexivity.
+Qed.
+
+(* string_to_int with its field-length bookkeeping *)
+Lemma sti_digits_u_spec : forall s unl k a hd,
+  sti_digits_u unl k (a mod U32) hd s =
+  (let '(n, h, k', r) := sti_digits unl k (- a) hd s in ((- n) mod U32, h, k', r)).
+Proof.
+  induction s as [|c t IH]; intros unl k a hd; cbn [sti_digits_u sti_digits].
+  - f_equal. f_equal. f_equal. f_equal. ring.
+  - destruct (inlim unl k && g_is_digit c).
+    + rewrite step_mod. replace (- a * 10 - (c - 48)) with (- (a * 10 + (c - 48))) by ring. apply IH.
+    + f_equal. f_equal. f_equal. f_equal. ring.
+Qed.
+
+Theorem string_to_int_u_spec : forall s checked len,
+  string_to_int_u s checked len = option_map wrap32 (string_to_int s checked len).
+Proof.
+  intros s checked len. unfold string_to_int_u, string_to_int.
+  destruct (sti_skip (len =? 0)%nat len s) as [k1 s1].
+  assert (G : forall k2 s2,
+    let '(n, hd, k3, s3) := sti_digits_u (len =? 0)%nat k2 0 false s2 in
+    let '(n', hd', k3', s3') := sti_digits (len =? 0)%nat k2 0 false s2 in
+    to_int32 ((0 - n) mod U32) = wrap32 (1 * n') /\ to_int32 n = wrap32 (-1 * n') /\
+    hd = hd' /\ k3 = k3' /\ s3 = s3').
+  { intros k2 s2. pose proof (sti_digits_u_spec s2 (len =? 0)%nat k2 0 false) as U.
+    change (0 mod U32) with 0 in U. change (- 0) with 0 in U. rewrite U.
+    destruct (sti_digits (len =? 0)%nat k2 0 false s2) as [[[n hd] k3] s3].
+    rewrite neg_mod. unfold wrap32.
+    replace (- - n) with (1 * n) by ring. replace (- n) with (-1 * n) at 1 by ring. repeat split. }
+  destruct (cur s1 =? 45); [|destruct (cur s1 =? 43)].
+  - specialize (G (pred k1) (adv s1)).
+    destruct (sti_digits_u (len =? 0)%nat (pred k1) 0 false (adv s1)) as [[[n hd] k3] s3].
+    destruct (sti_digits (len =? 0)%nat (pred k1) 0 false (adv s1)) as [[[n' hd'] k3'] s3'].
+    destruct G as [E1 [E2 [E3 [E4 E5]]]]. subst hd k3 s3. rewrite E1.
+    destruct checked; [|reflexivity]. destruct (sti_skip (len =? 0)%nat k3' s3') as [k4 s4].
+    destruct (negb hd' || negb (cur s4 =? 0)); reflexivity.
+  - specialize (G (pred k1) (adv s1)).
+    destruct (sti_digits_u (len =? 0)%nat (pred k1) 0 false (adv s1)) as [[[n hd] k3] s3].
+    destruct (sti_digits (len =? 0)%nat (pred k1) 0 false (adv s1)) as [[[n' hd'] k3'] s3'].
+    destruct G as [E1 [E2 [E3 [E4 E5]]]]. subst hd k3 s3. rewrite E2.
+    destruct checked; [|reflexivity]. destruct (sti_skip (len =? 0)%nat k3' s3') as [k4 s4].
+    destruct (negb hd' || negb (cur s4 =? 0)); reflexivity.
+  - specialize (G k1 s1).
+    destruct (sti_digits_u (len =? 0)%nat k1 0 false s1) as [[[n hd] k3] s3].
+    destruct (sti_digits (len =? 0)%nat k1 0 false s1) as [[[n' hd'] k3'] s3'].
+    destruct G as [E1 [E2 [E3 [E4 E5]]]]. subst hd k3 s3. rewrite E2.
+    destruct checked; [|reflexivity]. destruct (sti_skip (len =? 0)%nat k3' s3') as [k4 s4].
+    destruct (negb hd' || negb (cur s4 =? 0)); reflexivity.
+Qed.
+
+(* the snapshot's signed accumulation does overflow: "4294967295" has no defined value in int arithmetic *)
+Lemma simple_atoi_int_overflows : simple_atoi_int [52; 50; 57; 52; 57; 54; 55; 50; 57; 53] = None.
+Proof. vm_compute. reflexivity. Qed.
